@@ -155,6 +155,15 @@ def level2_library(name, lang, cfi, debug=False):
           F("sgrow", "void", [n_(), P("cap", "val", "int", role="cap"), P("s", "cstr_inout")]),
           F("sres", "cstr", [n_()]),
           F("sresl", {"kind": "cstr_len", "N": 8}, [n_()])]
+    # the same through fortran_generic variants (one more hop between the Fortran wrapper and the buffer-aware C wrapper)
+    gen_ = [{"decl": "(float x)", "function_suffix": "_float", "types": {"x": "float"}},
+            {"decl": "(double x)", "function_suffix": "_double", "types": {"x": "double"}}]
+    fs += [F("gci", "int", [P("s", "cstr_in"), P("x", "val", "double")], generic=[dict(g, decl="(const char *s, %s x)" % g["types"]["x"]) for g in gen_]),
+           F("gcio", "void", [n_(), P("cap", "val", "int", role="cap"), P("s", "cstr_inout"), P("x", "val", "double")],
+             generic=[dict(g, decl="(int n, int cap, char *s +intent(inout), %s x)" % g["types"]["x"]) for g in gen_])]
+    if lang == "c++":
+        fs += [F("gxi", "int", [P("s", "str_cref"), P("x", "val", "double")], generic=[dict(g, decl="(const std::string &s, %s x)" % g["types"]["x"]) for g in gen_]),
+               F("gxo", "void", [n_(), P("s", "str_ref_out"), P("x", "val", "double")], generic=[dict(g, decl="(int n, std::string &s +intent(out), %s x)" % g["types"]["x"]) for g in gen_])]
     if lang == "c++":
         fs += [F("xi", "int", [P("s", "str_cref")]), F("xv", "int", [P("s", "str_val")]), F("xp", "int", [P("s", "str_cptr")]),
                F("xo", "void", [n_(), P("s", "str_ref_out")]), F("xio", "void", [n_(), P("s", "str_ref_inout")]),
@@ -178,6 +187,13 @@ def level2_plan(lib, N):
         kinds = [p["kind"] for p in f["params"]]
         sp = next((p for p in f["params"] if p["kind"] in ir.STR_KINDS), None)
         def add(args, flen=None):
+            if f.get("generic"):
+                for gi, g in enumerate(f["generic"]):
+                    if (len(plan) + gi) % 2 and len(args) > 1:
+                        continue                 # alternate between the variants to keep the plan small
+                    plan.append({"f": fi, "variant": 0, "args": dict(args, x=1.5), "flen": flen or {}, "generic": g,
+                                 "via": "generic" if len(plan) % 2 else "specific"})
+                return
             plan.append({"f": fi, "variant": 0, "args": args, "flen": flen or {}, "via": "generic"})
         if sp is None:                                   # results
             hi = N + 2 + (f["ret"].get("N", 0) if f["ret"]["kind"].endswith("_len") else 0)
